@@ -58,41 +58,81 @@ SizeCons(env, T) ==
 \* the quantity a SIZE constraint measures
 SizeOf(B, v) == IF B.k = "BITS" THEN v.n ELSE Len(v)
 
+(* Named deviations of this clause (what codecs/compiler.py + constraints_checker.py *)
+(* do with a constraint written on a type reference), switched on by S:             *)
+(*   DevRefRangeReplaces            A (lb..ub) *replaces* the value range of the    *)
+(*        referenced INTEGER type instead of intersecting it (compile_type:         *)
+(*        set_compiled_restricted_to overwrites minimum/maximum)                    *)
+(*   DevRefSizeReplacesAtMember     m A (SIZE (..)) as SEQUENCE / SET / CHOICE      *)
+(*        component *replaces* the size constraint of A (compile_member:            *)
+(*        set_size_range)                                                           *)
+(*   DevRefSizeIgnoredOutsideMember  A (SIZE (..)) in a type assignment, as list    *)
+(*        element or behind a further reference is *ignored* (only compile_member   *)
+(*        looks at 'size' of a referencing descriptor)                              *)
+ConDevs == <<"DevRefRangeReplaces", "DevRefSizeReplacesAtMember", "DevRefSizeIgnoredOutsideMember">>
+
+ActiveInt(cs) == SelectSeq(cs, LAMBDA c : c.f = "R" /\ ~c.ext)
+
+EffIntCons(env, T, S) ==
+  LET cs == IntCons(env, T)
+      act == ActiveInt(cs)
+  IN IF "DevRefRangeReplaces" \in S /\ Len(act) > 1 THEN <<act[1]>> ELSE cs
+
+OuterSizeAtMember(T, isMem) ==
+  isMem /\ T.k = "REF" /\ HasField(T, "sz") /\ T.sz.f = "R" /\ ~T.sz.ext
+
+EffSizeCons(env, T, S, isMem) ==
+  LET cs == SizeCons(env, T)
+  IN IF Len(cs) <= 1 THEN cs
+     ELSE IF OuterSizeAtMember(T, isMem)
+     THEN (IF "DevRefSizeReplacesAtMember" \in S THEN <<T.sz>> ELSE cs)
+     ELSE (IF "DevRefSizeIgnoredOutsideMember" \in S THEN <<cs[Len(cs)]>> ELSE cs)
+
 \* violations of the node itself (not of its components): sequence of reasons
-OwnViolations(env, T, v) ==
+OwnViolations(env, T, v, S, isMem) ==
   LET B == Base(env, T)
-      ics == IntCons(env, T)
-      scs == SizeCons(env, T)
+      ics == EffIntCons(env, T, S)
+      scs == EffSizeCons(env, T, S, isMem)
   IN (IF B.k = "INT" /\ \E j \in 1..Len(ics) : ~InIntCon(ics[j], v) THEN <<"range">> ELSE <<>>)
      \o (IF B.k \in {"BITS", "OCTS", "STR", "SEQOF", "SETOF"}
             /\ \E j \in 1..Len(scs) : ~InSize(scs[j], SizeOf(B, v)) THEN <<"size">> ELSE <<>>)
      \o (IF B.k = "STR" /\ ~InAlphabet(B.al, v) THEN <<"alphabet">> ELSE <<>>)
 
 \* every violated component: sequence of [pos, why], pre-order
-RECURSIVE ViolationPaths(_, _, _)
-ViolationPaths(env, T, v) ==
+RECURSIVE ViolationPathsD(_, _, _, _, _)
+ViolationPathsD(env, T, v, S, isMem) ==
   LET B == Base(env, T)
-      own == OwnViolations(env, T, v)
+      own == OwnViolations(env, T, v, S, isMem)
       here == [j \in 1..Len(own) |-> [pos |-> <<>>, why |-> own[j]]]
       under(st, sub) == [j \in 1..Len(sub) |-> [pos |-> <<st>> \o sub[j].pos, why |-> sub[j].why]]
       kids ==
         CASE B.k \in {"SEQ", "SET"} ->
                LET ms == AllMembers(B)
                IN Concat([j \in 1..Len(ms) |->
-                     IF v[ms[j].n].p THEN under(MStep(ms[j].n), ViolationPaths(env, ms[j].t, v[ms[j].n].v))
+                     IF v[ms[j].n].p THEN under(MStep(ms[j].n), ViolationPathsD(env, ms[j].t, v[ms[j].n].v, S, TRUE))
                      ELSE <<>>])
           [] B.k = "CHOICE" ->
                LET alts == AllAlts(B)
                IN IF HasMember(alts, v.a)
-                  THEN under(AStep(v.a), ViolationPaths(env, alts[MemberIndex(alts, v.a)].t, v.v))
+                  THEN under(AStep(v.a), ViolationPathsD(env, alts[MemberIndex(alts, v.a)].t, v.v, S, TRUE))
                   ELSE <<>>
           [] B.k \in {"SEQOF", "SETOF"} ->
-               Concat([j \in 1..Len(v) |-> under(IStep(j), ViolationPaths(env, B.e, v[j]))])
+               Concat([j \in 1..Len(v) |-> under(IStep(j), ViolationPathsD(env, B.e, v[j], S, FALSE))])
           [] OTHER -> <<>>
   IN here \o kids
 
+\* the standard reading: constraints applied in series all hold
+ViolationPaths(env, T, v) == ViolationPathsD(env, T, v, {}, FALSE)
+
 \* C11: the declared constraints admit the value
 ConAdmits(env, T, v) == ViolationPaths(env, T, v) = <<>>
+
+\* candidate deviation sets, smallest first
+ConDevSets ==
+  LET n == Len(ConDevs)
+  IN [j \in 1..n |-> {ConDevs[j]}]
+     \o Concat([a \in 1..n |-> [b \in 1..(n - a) |-> {ConDevs[a], ConDevs[a + b]}]])
+     \o <<{ConDevs[j] : j \in 1..n}>>
 
 ------------------------------------------------------------------------------
 (* type positions and bounds (for boundary completeness of value tables)   *)
@@ -127,7 +167,7 @@ BoundSites(env, T, tp, fuel) ==
                     IN Concat([j \in 1..Len(alts) |-> BoundSites(env, alts[j].t, Append(tp, alts[j].n), f2)])
                [] B.k \in {"SEQOF", "SETOF"} -> BoundSites(env, B.e, Append(tp, "*"), f2)
                [] OTHER -> <<>>
-  IN intSites \o sizeSites \o kids
+  IN IF f2 < 0 THEN <<>> ELSE intSites \o sizeSites \o kids
 
 TypePos(pos) == [j \in 1..Len(pos) |-> IF pos[j].s = "i" THEN "*" ELSE pos[j].n]
 
